@@ -177,11 +177,15 @@ class Entry:
 
 
 class DictState:
-    def __init__(self, entries=()):
+    def __init__(self, entries=(), base=None):
         self.entries = tuple(entries)
+        self.base = base  # an opaque imported mapping this dict was copied from (dict(other)); its keys are unknown
 
     def add(self, entry):
-        return DictState(self.entries + (entry,))
+        return DictState(self.entries + (entry,), self.base)
+
+    def extend(self, entries):
+        return DictState(self.entries + tuple(entries), self.base)
 
 
 class SetVal:
